@@ -397,7 +397,18 @@ class UnitRun:
             for r_ in self.gen['records']:
                 if r_['fn'] == fn:
                     lost = r_.get('lost_hints', [])
-            if lost and (internal or not cids):
+            hint_dependent = False
+            if lost and cids and not internal:
+                # a tagged clause failed in a function one of whose proof hints lost its anchor: the failure may be nothing but
+                # the missing hint.  The clause-ablation analysis (bin/deptags) says which obligations need which hint; without
+                # that information (stale file) every clause of the function is taken to depend on it.
+                dep = self.gen.get('dependants')
+                lost_cids = [l_.split(' ')[0] for l_ in lost]
+                if dep is None:
+                    hint_dependent = True
+                else:
+                    hint_dependent = any(oid in dep.get(lc, []) or oid.split('@call:')[-1] in dep.get(lc, []) for lc in lost_cids)
+            if lost and (internal or not cids or hint_dependent):
                 rec['message'] += ' [proof hint lost: %s]' % lost[0]
                 self.undecided.append(rec)
             elif k == 'undecided' or fn is None:
